@@ -33,6 +33,8 @@ def probeApp (x : QItem) (sel i : Nat) (l : FLink F) : List QItem :=
   if probeCalled sel i l ∧ l.probeCounter + 1 ≥ 100 then [x] else []
 
 def RProbe (fn0 : List Nat) (x : QItem) (sel : Nat) (i : Nat) (l l' : FLink F) (b : List Bytes) : Prop :=
+  (¬ probeCalled sel i l → l' = l ∧ b = []) ∧
+  (probeApp x sel i l = [] → l'.queue = l.queue ∧ b = []) ∧
   LinkFx (FailedSendReset fn0 l l') (probeApp x sel i l) l l' b ∧ ProbeFx (probeCalled sel i l) l l'
 
 theorem stallProbesGo_par (pkt : Bytes) (seq : Option Nat) (now sel : Nat) (fn0 : List Nat) :
@@ -60,7 +62,7 @@ theorem stallProbesGo_par (pkt : Bytes) (seq : Option Nat) (now sel : Nat) (fn0 
       obtain ⟨ih1, ih2⟩ := ih (i + 1) fn hfn
       refine ⟨?_, ih2⟩
       have hr : RProbe fn0 (pkt, seq, now) sel i l l [] := by
-        refine ⟨?_, ?_⟩
+        refine ⟨fun _ => ⟨rfl, rfl⟩, fun _ => ⟨rfl, rfl⟩, ?_, ?_⟩
         · have : probeApp (pkt, seq, now) sel i l = [] := by
             unfold probeApp; rw [if_neg (fun h => hnc h.1)]
           rw [this]; exact LinkFx.refl _ l
@@ -90,7 +92,7 @@ theorem stallProbesGo_par (pkt : Bytes) (seq : Option Nat) (now sel : Nat) (fn0 
           obtain ⟨ih1, ih2⟩ := ih (i + 1) _ hb4
           refine ⟨?_, ih2⟩
           rw [hb1, d4]
-          refine Par.cons ⟨?_, ?_⟩ ih1
+          refine Par.cons ⟨fun h => absurd hc h, (fun h => by rw [happ] at h; cases h), ?_, ?_⟩ ih1
           · rw [happ]
             exact (hb2.mono (fun f => ⟨by rw [← d4]; exact f.1, f.2⟩)).congr_left d3 (by rw [d4])
           · unfold ProbeFx; rw [if_pos hc, if_pos hdue]
@@ -108,7 +110,7 @@ theorem stallProbesGo_par (pkt : Bytes) (seq : Option Nat) (now sel : Nat) (fn0 
                 (stallProbesGo pkt seq now sel rest (i + 1) fn).1)
               (([] : List Bytes).map (fun x => (l.core.connId, x)) ++
                 (stallProbesGo pkt seq now sel rest (i + 1) fn).2.1) := by
-            refine Par.cons ⟨?_, ?_⟩ ih1
+            refine Par.cons ⟨fun h => absurd hc h, (fun h => by rw [happ] at h; cases h), ?_, ?_⟩ ih1
             · rw [happ]
               exact (hk1.mono (fun f => ⟨by rw [← d4]; exact f.1, f.2⟩)).congr_left d3 (by rw [d4])
             · unfold ProbeFx; rw [if_pos hc, if_pos hdue, hk2, hpc0]
@@ -119,7 +121,7 @@ theorem stallProbesGo_par (pkt : Bytes) (seq : Option Nat) (now sel : Nat) (fn0 
         obtain ⟨ih1, ih2⟩ := ih (i + 1) fn hfn
         refine ⟨?_, ih2⟩
         have hr : RProbe fn0 (pkt, seq, now) sel i l l.stallProbeDue.1 [] := by
-          refine ⟨?_, ?_⟩
+          refine ⟨fun h => absurd hc h, fun _ => ⟨d3, rfl⟩, ?_, ?_⟩
           · have : probeApp (pkt, seq, now) sel i l = [] := by
               unfold probeApp; rw [if_neg (fun h => hdue h.2)]
             rw [this]
